@@ -1,9 +1,12 @@
 """C11: ode.save(path) -> gotranx.load_ode(path) preserves the model (declarations and numerics)."""
 from __future__ import annotations
 
+import contextlib
 import math
 import os
 import re
+import signal
+import time
 
 import backends as bk
 import common as cm
@@ -130,10 +133,29 @@ def cases(tier, seed, focus):
 
 def gen_case(seed, i, npts):
     k = seed * 100003 + i
-    opts = {"force": list(mg.feature_cycle(k)), "own": 0.4}
+    opts = {"force": list(mg.feature_cycle(k)), "own": 0.4, "depth": 3 if i % 3 == 0 else 2}
     if i % 5 == 4:
         opts.update({"n_states": [3, 6], "n_inter": [4, 10], "n_comps": [2, 4], "n_params": [2, 6]})
-    return {"mseed": k, "opts": opts, "npts": npts, "tags": ["C11"]}
+    return {"mseed": k, "opts": opts, "npts": npts, "limit": 8 if npts <= 4 else 30, "tags": ["C11"]}
+
+
+class Slow(BaseException):
+    pass
+
+
+@contextlib.contextmanager
+def time_limit(seconds):
+    """abort pathological sympy simplifications (the case is then skipped, not judged)"""
+    def handler(signum, frame):
+        raise Slow()
+
+    old = signal.signal(signal.SIGALRM, handler)
+    signal.setitimer(signal.ITIMER_REAL, seconds)
+    try:
+        yield
+    finally:
+        signal.setitimer(signal.ITIMER_REAL, 0)
+        signal.signal(signal.SIGALRM, old)
 
 
 # --------------------------------------------------------------------------------------
@@ -157,7 +179,8 @@ def tokens(s):
 def novel_construct(saved, text, msg):
     """identifier(s) the writer introduced (not present in the original text) on the line the loader complains about"""
     lines = [ln.split("#")[0] for ln in saved.splitlines()]
-    novel = lambda ls: sorted(t for t in tokens("\n".join(ls)) - tokens(text) - {"ScalarParam", "unit", "description"})  # noqa: E731
+    known = set(mg.CALLS) | {"ScalarParam", "unit", "description", "pi", "t", "time"}
+    novel = lambda ls: sorted(t for t in tokens("\n".join(ls)) - tokens(text) - known)  # noqa: E731
     m = re.search(r"line (\d+)", msg)
     if m and 0 < int(m.group(1)) <= len(lines):
         nv = novel([lines[int(m.group(1)) - 1]])
@@ -310,17 +333,19 @@ def saved_lines(saved, names):
     return [ln.strip()[:200] for ln in saved.splitlines() if any(re.match(rf"\s*{re.escape(n)}\s*=", ln) for n in names)][:4]
 
 
-def roundtrip(text, points, res, shr, ode=None, what="model"):
+def roundtrip(text, points, res, shr, ode=None, what="model", upto=None):
+    """upto (only set while shrinking): stop after the stage the failure being shrunk belongs to"""
     import gotranx
 
     seen = set()
     state = {"saved": ""}
+    stage = ["save"]
 
     def add(sig, msg, exp, act, detail="", pt=None, shrink=False, base=None, keep=False):
         if sig in seen:
             return
         seen.add(sig)
-        inp = {"ode": text}
+        inp = {"ode": text, "_stage": stage[0]}
         if pt is not None:
             inp["points"] = [pt]
         f = cm.fail(sig, msg, inp, exp, act, (detail + " " if detail else "") + "saved file: " + state["saved"][:600].replace("\n", " | "))
@@ -346,21 +371,34 @@ def roundtrip(text, points, res, shr, ode=None, what="model"):
                 ode.save(path)
             state["saved"] = saved = open(path).read()
         except Exception as e:  # noqa: BLE001
-            sig = f"C11:save-raises:{cm.exc_name(e)}"
-            add(sig, f"ode.save raises for a loaded {what}", "a file", cm.exc_site(e), cm.short(e), shrink=True)
+            sig = f"C11:save-raises:{cm.exc_site(e)}"
+            also = ""
+            try:
+                cm.py_code(ode)
+            except Exception as e2:  # noqa: BLE001
+                also = f" [numpy code generation of the same model also raises {cm.exc_site(e2)}]"
+                cm.note(res, "save-raises-and-numpy-codegen-raises")
+            add(sig, f"ode.save raises for a loaded {what}", "a file", cm.exc_site(e), cm.short(e) + also, shrink=True)
             return
+        if upto == "save":
+            return
+        stage[0] = "reload"
         try:
             with cm.quiet():
                 o2 = gotranx.load_ode(path)
         except Exception as e:  # noqa: BLE001
             msg = cm.short(e)
-            con = novel_construct(saved, text, msg) or (cm.main_feature(text) if ref is not None else "unknown")
-            add(f"C11:reload-raises:{cm.exc_name(e)}:{con}", f"the file written by ode.save is rejected by load_ode ({what})", "a loadable file", cm.exc_site(e), msg,
-                shrink=True, base=f"C11:reload-raises:{cm.exc_name(e)}")
+            con = novel_construct(saved, text, msg) if cm.exc_name(e) in ("MissingSymbolError", "UnexpectedToken", "UnexpectedCharacters", "UnexpectedInput", "UnexpectedEOF") else None
+            add(f"C11:reload-raises:{cm.exc_name(e)}" + (f":{con}" if con else ""), f"the file written by ode.save is rejected by load_ode ({what})", "a loadable file", cm.exc_site(e), msg,
+                shrink=True, base=f"C11:reload-raises:{cm.exc_name(e)}", keep=True)
             return
-    same = compare_atoms(ode, o2, add)
-    if not same:
+    if upto == "reload":
         return
+    stage[0] = "atoms"
+    same = compare_atoms(ode, o2, add)
+    if not same or upto == "atoms":
+        return
+    stage[0] = "numeric"
     if points is None:
         points = default_points(ode) if ref is None else mg.valid_points(ref, __import__("random").Random(cm.sha(text)), 3)
     npts = compare_numeric(ode, o2, text, points, res, add, ref)
@@ -464,8 +502,25 @@ def check(case):
         res["errors"].append(f"reference cannot read model: {cm.exc_name(e)}: {cm.short(e)}")
         return res
     res["sample"] = {"ode": c["ode"], "points": c["points"][:1]}
-    roundtrip(c["ode"], c["points"], res, None if case.get("_noshrink") else True)
+    try:
+        with time_limit(float(case.get("limit", 15 if case.get("_noshrink") else 60))):
+            roundtrip(c["ode"], c["points"], res, None if case.get("_noshrink") else True, upto=case.get("_stage") if case.get("_noshrink") else None)
+    except Slow:
+        cm.note(res, "skipped:too-slow")
     return res
 
 
-run, replay = cm.make_api(globals())
+DEADLINE = [None]
+
+
+def shrink_job(f):
+    left = (DEADLINE[0] - time.time()) if DEADLINE[0] else 30.0
+    return cm.shrink_failure(check, f, f["_shrink"]["base"], keep_components=f["_shrink"].get("keep_components", False), max_steps=80, max_seconds=max(3.0, min(20.0, left * 0.45)))
+
+
+_run, replay = cm.make_api(globals())
+
+
+def run(tier, seed, focus, deadline):
+    DEADLINE[0] = deadline
+    return _run(tier, seed, focus, deadline)
